@@ -70,3 +70,12 @@ Fixpoint py_dict_enum {V} (b : N) (l : list V) : list (N * V) :=
   | [] => []
   | x :: r => (b, x) :: py_dict_enum (b + 1) r
   end.
+
+(** [s.find(c)]: index of the first occurrence; [None] stands for Python's -1 *)
+Fixpoint py_find_from (c : N) (s : list N) (i : N) : option N :=
+  match s with
+  | [] => None
+  | x :: r => if x =? c then Some i else py_find_from c r (i + 1)
+  end.
+Definition py_find (c : N) (s : list N) : option N := py_find_from c s 0.
+Definition is_none {A} (o : option A) : bool := match o with None => true | Some _ => false end.
